@@ -121,6 +121,20 @@ func treeStructure(t *vm.CallTree) []string {
 		if c.Index != uint64(i) {
 			bad = append(bad, fmt.Sprintf("C07: FindCall(%d) returns the node with index %d", i, c.Index))
 		}
+		if c.IsRoot() != (c.Parent == nil) {
+			bad = append(bad, fmt.Sprintf("C07: node %d: IsRoot() = %v but its parent is %v", i, c.IsRoot(), c.Parent != nil))
+		}
+		ci, ch := c.ChildrenIndices(), t.ChildrenOf(uint64(i))
+		if len(ci) != len(ch) {
+			bad = append(bad, fmt.Sprintf("C07: node %d: ChildrenIndices() has %d entries, ChildrenOf() %d", i, len(ci), len(ch)))
+		} else {
+			for k := range ci {
+				if ci[k] != ch[k].Index {
+					bad = append(bad, fmt.Sprintf("C07: node %d: ChildrenIndices()[%d] = %d but the %d-th child is node %d", i, k, ci[k], k, ch[k].Index))
+					break
+				}
+			}
+		}
 		if p := t.ParentOf(uint64(i)); p != c.Parent {
 			bad = append(bad, fmt.Sprintf("C07: ParentOf(%d) and the node's parent differ", i))
 		}
